@@ -184,6 +184,40 @@ fn c15_prune_after_reinsert() -> bool {
     res.2 == 1 && left.len() == 1
 }
 
+/// C09 (answer section holds only records for the question name or its CNAME chain) / C10: a question beneath a delegation point of an
+/// authoritative zone, resolved without recursion (RD clear or authoritative-only mode), is a referral: the NS records of the
+/// delegation point are not records for the question name and must not be handed to the server as answer records.
+fn c09_referral_in_answer_section() -> bool {
+    use dns_resolver::cache::SharedCache;
+    use dns_resolver::context::Context;
+    use dns_resolver::local::resolve_local;
+    use dns_resolver::util::types::ResolvedRecord;
+    let apex = dn("example.");
+    let mut z = Zone::new(apex.clone(), Some(soa(1)));
+    z.insert(&dn("sub.example."), RecordTypeWithData::NS { nsdname: dn("ns.elsewhere.") }, 300);
+    let mut zones = Zones::new();
+    zones.insert(z);
+    let cache = SharedCache::new();
+    let question = Question { name: dn("www.sub.example."), qtype: QueryType::Record(RecordType::A), qclass: QueryClass::Record(RecordClass::IN) };
+    let mut context = Context::new((), &zones, &cache, 32);
+    // exactly what dns_resolver::resolve does when recursion is not requested or not offered
+    let result = resolve_local(&mut context, &question).map(ResolvedRecord::from);
+    println!("input: authoritative zone example. with `sub.example. NS ns.elsewhere.`; question www.sub.example. A, no recursion");
+    println!("required: every record handed over for the ANSWER section is owned by www.sub.example. (or follows its CNAME chain)");
+    match result {
+        Ok(resolved) => {
+            let answer = resolved.rrs();
+            let shown: Vec<_> = answer.iter().map(|r| format!("{} {}", r.name, r.rtype_with_data.rtype())).collect();
+            println!("observed: answer records = {shown:?}");
+            answer.iter().all(|r| r.name == question.name)
+        }
+        Err(e) => {
+            println!("observed: Err({e:?})");
+            true
+        }
+    }
+}
+
 fn main() {
     let w = std::env::args().nth(1).unwrap_or_default();
     let ok = match w.as_str() {
@@ -193,6 +227,7 @@ fn main() {
         "c12_two_soas_after_merge" => c12_two_soas_after_merge(),
         "c02_apex_ns_referral" => c02_apex_ns_referral(),
         "c15_prune_after_reinsert" => c15_prune_after_reinsert(),
+        "c09_referral_in_answer_section" => c09_referral_in_answer_section(),
         _ => {
             eprintln!("unknown witness `{w}`");
             exit(2)
